@@ -33,6 +33,10 @@ type svcProgram struct {
 	yield  bool
 	assign int // core whose authorizer queue this service replaces when it accumulates (-1: none)
 	xfers  []svcXfer
+	// cycle: on every accumulation the service first forgets, then solicits one fixed preimage of its own. Over the
+	// invocations (with the author providing the blob whenever it is solicited and missing) the lookup entry runs
+	// through its whole life cycle: [] -> [x] -> [x,y] -> [x,y,z] -> (after D slots) [z,t] ...
+	cycle []byte
 	meta   []byte // encoded (metadata, code)
 	codeH  types.OpaqueHash
 }
@@ -90,6 +94,16 @@ func buildSvcProgram(p *svcProgram, all []types.ServiceID) []byte {
 		a.LoadImm64(9, x.gas)
 		a.LoadImm64(10, d.Put(memo))
 		a.Ecalli(20)
+	}
+	if len(p.cycle) > 0 {
+		h := h256(p.cycle)
+		hp := d.Put(h[:])
+		a.LoadImm64(7, hp)
+		a.LoadImm64(8, uint64(len(p.cycle)))
+		a.Ecalli(24) // forget
+		a.LoadImm64(7, hp)
+		a.LoadImm64(8, uint64(len(p.cycle)))
+		a.Ecalli(23) // solicit
 	}
 	if p.yield {
 		y := h256(u32le(uint32(p.id)), []byte("yield"))
